@@ -406,8 +406,12 @@ def build():
 
     se = common(u.extract(F, TIMPL, 'sample_ext', 'CircuitChallenger::sample_ext'))
     se.set_sig('R11', 'fn sample_ext<BF, EF: ExtX>(&mut self, circuit: &mut CircuitBuilder<EF>) -> Target')
-    se.rewrite('R6', 'let coeffs: Vec<_> = (0..EF::dimension()).map(|_| self.sample(circuit)).collect();',
-               'let mut coeffs: Vec<Target> = Vec::new(); for k_ in 0..EF::dimension() { let t_ = self.sample(circuit); coeffs.push(t_); }')
+    # R6 (general forms): `(0..N).map(|_| self.sample(circuit)).collect()` -> block expression with a push loop;  `V.drain(A..).rev().collect()` -> reverse copy + truncate
+    se.rewrite_re('R6', r'\(0\.\.([\w:()]+)\)\s*\.map\(\|_\| self\.sample\(circuit\)\)\s*\.collect\(\)',
+                  r'({ let mut coeffs_: Vec<Target> = Vec::new(); for k_ in 0..\1 { let t_ = self.sample(circuit); coeffs_.push(t_); } coeffs_ })', min_count=1)
+    se.rewrite_re('R6', r'([\w.]+)\.drain\((\w+)\.\.\)\s*\.rev\(\)\s*\.collect\(\)',
+                  r'({ let mut dr_: Vec<Target> = Vec::new(); let n_dr_ = \1.len(); for r_dr_ in 0..(n_dr_ - \2) { dr_.push(\1[n_dr_ - 1 - r_dr_]); } \1.truncate(\2); dr_ })', min_count=0)
+    se.rewrite_re('R11', r'let (\w+): Vec<_> =', r'let \1: Vec<Target> =', min_count=0)
     se.requires('inv', 'old(self).inv(old(circuit))')
     se.ensures('refines_native_sample_algebra_element_state',
                'final(self).abs(final(circuit)) == n_sample_many_state(old(self).abs(old(circuit)), sp_dim::<EF>(), RATE as nat)')
@@ -416,11 +420,11 @@ def build():
     se.ensures('inv', 'final(self).inv(final(circuit)) && final(self).config == old(self).config')
     se.ensures('frame', 'final(circuit).extends(old(circuit))')
     se.at_start('let ghost n0 = self.abs(circuit);')
-    se.loop('for k_ in 0..EF::dimension()', invariants=[
+    se.loop('for k_ in 0..', invariants=[
         ('inv', 'self.inv(circuit) && self.config == old(self).config && circuit.extends(old(circuit))'),
-        ('len', 'coeffs@.len() == k_ && circuit.has_all(coeffs@)'),
+        ('len', 'coeffs_@.len() == k_ && circuit.has_all(coeffs_@)'),
         ('abs', 'self.abs(circuit) == n_sample_many_state(n0, k_ as nat, RATE as nat)'),
-        ('vals', 'circuit.vals_of(coeffs@) == n_sample_many_vals(n0, k_ as nat, RATE as nat)'),
+        ('vals', 'circuit.vals_of(coeffs_@) == n_sample_many_vals(n0, k_ as nat, RATE as nat)'),
     ])
     se.rewrite('SPEC-bind-tail', 'circuit .recompose_base_coeffs_to_ext::<BF>(&coeffs) .expect("recomposition should succeed")',
                '''let ghost circ_r = *circuit;
@@ -431,10 +435,10 @@ def build():
             lemma_vals_of_extends(&circ_r, circuit, self.output_buffer@);
         }
         r_''')
-    se.before('let t_ = self.sample(circuit);', 'let ghost circ_b = *circuit; let ghost cs0 = coeffs@;')
-    se.after('coeffs.push(t_);', '''proof {
+    se.before('let t_ = self.sample(circuit);', 'let ghost circ_b = *circuit; let ghost cs0 = coeffs_@;')
+    se.after('coeffs_.push(t_);', '''proof {
                 lemma_vals_of_extends(&circ_b, circuit, cs0);
-                assert(circuit.vals_of(coeffs@) =~= circ_b.vals_of(cs0).push(circuit.val(t_)));
+                assert(circuit.vals_of(coeffs_@) =~= circ_b.vals_of(cs0).push(circuit.val(t_)));
             }''')
 
     sb = common(u.extract(F, TIMPL, 'sample_bits', 'CircuitChallenger::sample_bits'))
